@@ -99,6 +99,20 @@ CHECKS.update({
 })
 CHECKS["C20"]["technique"]="TLA+ spec Bus.tla / Persist.tla (observability callbacks as actions): exhaustive TLC; recorded callback traces of the real bus validated against BusTrace.tla and PersistTrace.tla; the real OpenTelemetry implementation run in front of the recorder on the SDK's span recorder and manual metric reader"
 CHECKS["C20"]["text"]+=" Persist start/complete are checked by PersistTrace.tla (one pair per append attempt, none for unencodable events, error iff the append failed). The OpenTelemetry implementation is teed in front of the recording observability: started = ended spans, each ended once, handler/persist spans children of a publish span, error status and the counters equal the numbers of callbacks in the trace that BusTrace.tla accepted."
+
+# --- additions of session 3: the persistence step inside Bus.tla, refused store calls, racing upcasts ---
+PIPE=" The persistence step is also part of Bus.tla's publish pipeline (MCBus_pers: OnPersistStart / Append / OnPersistComplete / persistence error handler between the before hooks and the snapshot; invariants RecordedFirst, AppendOnce, LogSound; mutants livectxonly, retry): executions of the real bus with a recording store, scripted rejected and stuck appends, a persistence timeout, request contexts that end by cancellation or by deadline, over all 128 option combinations, are validated against BusTrace.tla."
+for k in ("C08","C09","C13","C20"):
+    CHECKS[k]["text"]+=PIPE
+CHECKS["C08"]["technique"]+="; the same on buses with a store and a persistence timeout (MCBus_pers pipeline), with contexts that end by deadline (Err() = DeadlineExceeded)"
+CHECKS["C09"]["technique"]+="; Bus.tla with the persistence step (MCBus_pers + mutants) and pipeline executions validated against BusTrace.tla; request-scoped contexts, durable-streams store"
+CHECKS["C13"]["technique"]+="; Bus.tla with the persistence step (MCBus_pers + mutants): rejected / stuck appends under a persistence timeout and caller deadlines, validated against BusTrace.tla; events whose own MarshalJSON output is not JSON"
+CHECKS["C10"]["text"]+=" One call in twelve is made with an already cancelled context: it either works normally or is a 'refused' line, which Log.tla allows only as a step without any effect (a refused SaveOffset is retried)."
+CHECKS["C14"]["text"]+=" The child also calls SaveOffset with a cancelled context before some saves (refused = no effect) and retries; after every reopen the saved offset must be the last acknowledged one or the one in flight at the kill."
+CHECKS["C15"]["text"]+=" All shapes are also published at the same time from separate goroutines on one persistent bus: every record must sit under its own event's name with its own data, and typed replay must deliver exactly them."
+CHECKS["C16"]["text"]+=" Registrations and clears also race with an upcasting replay through a slow chain: it must terminate with the chain's result and leave nothing blocked."
+CHECKS["C19"]["text"]+=" Inputs include inserts/updates without a value after valid traffic and entities whose JSON codec sits on pointer receivers."
+CHECKS["C03"]["text"]+=" The free-running mix keeps Async+Sequential handlers busy while publish contexts are cancelled behind them."
 checks=[]
 for p in props:
     c=CHECKS.get(p['id'])
